@@ -56,10 +56,11 @@ func (bc *bullyCoordinatorElector) Coordinator(ctx context.Context, peers peer.I
 	log.Info().Str("SessionID", bc.sessionID).Msgf("Starting bully process")
 
 	ctx, cancel := context.WithCancel(ctx)
-	go bc.listen(ctx)
 	defer cancel()
 
+	// the candidates have to be known before the first message is judged
 	bc.sortedPeers = util.SortPeersForSession(peers, bc.sessionID)
+	go bc.listen(ctx)
 	errChan := make(chan error)
 	go bc.startBullyCoordination(errChan)
 
@@ -87,6 +88,15 @@ func (bc *bullyCoordinatorElector) listen(ctx context.Context) {
 		case <-ctx.Done():
 			return
 		case msg := <-bc.msgChan:
+			// only the peers this election is held among have a say in it: election, alive and
+			// coordinator-select messages of anybody else (e.g. a peer excluded from the retry) are dropped
+			if isElectionMsg(msg.MessageType) && !bc.isCandidate(msg.From) {
+				log.Warn().Str("SessionID", bc.sessionID).Msgf(
+					"ignoring election message from %s that is not a candidate", msg.From.Pretty(),
+				)
+				continue
+			}
+
 			switch msg.MessageType {
 			case comm.CoordinatorAliveMsg:
 				// check if peer that sent alive msg has higher order
@@ -143,6 +153,22 @@ func (bc *bullyCoordinatorElector) startBullyCoordination(errChan chan error) {
 			bc.setCoordinator(msg.From)
 		}
 	}
+}
+
+func isElectionMsg(msgType comm.MessageType) bool {
+	return msgType == comm.CoordinatorAliveMsg ||
+		msgType == comm.CoordinatorSelectMsg ||
+		msgType == comm.CoordinatorElectionMsg
+}
+
+// isCandidate tells if the peer is one of the peers the election is held among
+func (bc *bullyCoordinatorElector) isCandidate(p peer.ID) bool {
+	for i := range bc.sortedPeers {
+		if p == bc.sortedPeers[i].ID {
+			return true
+		}
+	}
+	return false
 }
 
 func (bc *bullyCoordinatorElector) isPeerIDHigher(p1 peer.ID, p2 peer.ID) bool {
